@@ -5,6 +5,7 @@ package haproxy
 import (
 	"errors"
 	"os"
+	"sort"
 	"strings"
 	"time"
 
@@ -63,14 +64,33 @@ type zzC12Env struct {
 	faultCfg  bool
 	written   map[string][]string
 	writes    int
+	faultFile string // a single file whose write fails (VerifC12_FileFault)
 }
 
 var zzEnv *zzC12Env
+var zzEnvs []*zzC12Env
+
+// zzC12EnvOf finds the environment a template belongs to (VerifC12_FileFault runs two).
+func zzC12EnvOf(c *template.Config) *zzC12Env {
+	for _, e := range zzEnvs {
+		i := e.inst
+		if c == i.mapsTmpl || c == i.haproxyTmpl || c == i.modsecTmpl || c == i.crtlistTmpl || c == i.haResponseTmpl || c == i.luaResponseTmpl {
+			return e
+		}
+	}
+	return zzEnv
+}
 
 // symbolic run: stand-ins for (*template.Config).WriteOutput / Write. They fail exactly where the
 // native run makes the file system fail, and record what the real template would be given.
 func zzC12WriteOutput(c *template.Config, data interface{}, output string) error {
-	e := zzEnv
+	e := zzC12EnvOf(c)
+	if c == e.inst.haproxyTmpl && output == "" {
+		output = e.cfgDir + "/haproxy.cfg"
+	}
+	if e.faultFile != "" && output == e.faultFile {
+		return errors.New("cannot write " + output)
+	}
 	switch c {
 	case e.inst.mapsTmpl:
 		if e.faultMaps {
@@ -84,9 +104,6 @@ func zzC12WriteOutput(c *template.Config, data interface{}, output string) error
 		}
 		e.written[output] = lines
 	case e.inst.haproxyTmpl:
-		if output == "" {
-			output = e.cfgDir + "/haproxy.cfg"
-		}
 		if e.faultCfg {
 			return errors.New("cannot write config")
 		}
@@ -138,6 +155,7 @@ func zzC12Setup() *zzC12Env {
 	e.inst.Config()
 	e.inst.config.Global().MatchOrder = hatypes.DefaultMatchOrder
 	zzEnv = e
+	zzEnvs = append(zzEnvs, e)
 	return e
 }
 
@@ -192,6 +210,121 @@ func (e *zzC12Env) addApp(ns, ip string) {
 	b := e.inst.config.Backends().AcquireBackend(ns, "app", "8080")
 	b.AcquireEndpoint(ip, 8080, "")
 	e.inst.config.Hosts().AcquireHost(ns+".local").AddPath(b, "/", hatypes.MatchBegin)
+}
+
+// files lists what HAProxy loads from this environment: every map file plus haproxy.cfg, sorted
+// by base name.
+func (e *zzC12Env) files() []string {
+	var names []string
+	if nd.Symbolic() {
+		for f := range e.written {
+			names = append(names, f)
+		}
+	} else {
+		ents, _ := os.ReadDir(e.mapsDir)
+		for _, ent := range ents {
+			names = append(names, e.mapsDir+"/"+ent.Name())
+		}
+		names = append(names, e.cfgDir+"/haproxy.cfg")
+	}
+	sort.Slice(names, func(i, j int) bool { return zzC12Base(names[i]) < zzC12Base(names[j]) })
+	return names
+}
+
+func zzC12Base(f string) string { return f[strings.LastIndex(f, "/")+1:] }
+
+// content is the file as HAProxy would read it, with this environment's directories masked.
+func (e *zzC12Env) content(file string) string {
+	if nd.Symbolic() {
+		return strings.Join(e.written[file], "\n")
+	}
+	raw, err := os.ReadFile(file)
+	if err != nil {
+		return "<unreadable>"
+	}
+	return strings.ReplaceAll(strings.ReplaceAll(string(raw), e.mapsDir, "<maps>"), e.cfgDir, "<cfg>")
+}
+
+// setFileFault makes writing one file fail (natively: a directory takes its place, the
+// previous content comes back when the fault is lifted).
+func (e *zzC12Env) setFileFault(file string, on bool) {
+	if nd.Symbolic() {
+		if on {
+			e.faultFile = file
+		} else {
+			e.faultFile = ""
+		}
+		return
+	}
+	if on {
+		os.Rename(file, file+".aside")
+		os.Mkdir(file, 0o755)
+	} else {
+		os.Remove(file)
+		os.Rename(file+".aside", file)
+	}
+}
+
+// pending applies one of the pending changes to the model.
+func (e *zzC12Env) pending(change int) {
+	switch change {
+	case 0:
+		e.addApp("d2", "10.0.0.2")
+	case 1:
+		e.inst.config.Backends().RemoveAll([]string{"d1_app_8080"})
+		e.inst.config.Hosts().RemoveAll([]string{"d1.local"})
+		e.addApp("d1", "10.0.0.9")
+	case 2:
+		b := e.inst.config.Backends().AcquireBackend("d3", "app", "8080")
+		b.AcquireEndpoint("10.0.0.3", 8080, "")
+		e.inst.config.Hosts().RemoveAll([]string{"d1.local"})
+		h := e.inst.config.Hosts().AcquireHost("d1.local")
+		h.AddPath(e.inst.config.Backends().AcquireBackend("d1", "app", "8080"), "/", hatypes.MatchBegin)
+		h.AddPath(b, "/sub", hatypes.MatchBegin)
+	case 3: // a second host, https only content as well (tls)
+		e.addApp("d2", "10.0.0.2")
+		e.inst.config.Hosts().AcquireHost("d2.local").TLS.TLSFilename = "/tls/d2.pem"
+		e.inst.config.Hosts().AcquireHost("d2.local").TLS.TLSHash = "1"
+	}
+}
+
+// VerifC12_FileFault: two identical environments bring up d1, then receive the same pending
+// change. In the first one the write of exactly one of the files HAProxy loads (any map file or
+// haproxy.cfg) fails during the update. Either that update reports the failure, or it has left
+// every file as the fault-free update of the twin did: a failed write is never swallowed.
+func VerifC12_FileFault() {
+	zzEnvs = nil
+	a := zzC12Setup()
+	defer a.cleanup()
+	b := zzC12Setup()
+	defer b.cleanup()
+	for _, e := range []*zzC12Env{a, b} {
+		e.addApp("d1", "10.0.0.1")
+		nd.Assert(e.inst.HAProxyUpdate(utils.NewTimer(nil)) == nil, "first-update-succeeds")
+	}
+	files := a.files()
+	twin := b.files()
+	nd.Assert(len(files) == len(twin) && len(files) >= 2, "twin-environments-write-the-same-files")
+	change := nd.Choice("change", 4)
+	k := nd.Choice("file", len(files))
+	a.pending(change)
+	b.pending(change)
+	a.setFileFault(files[k], true)
+	errA := a.inst.HAProxyUpdate(utils.NewTimer(nil))
+	a.setFileFault(files[k], false)
+	errB := b.inst.HAProxyUpdate(utils.NewTimer(nil))
+	nd.Assert(errB == nil, "fault-free-update-succeeds")
+	nd.Record("file=" + zzC12Base(files[k]) + ";")
+	if errA == nil {
+		for i := range files {
+			nd.Assert(zzC12Base(files[i]) == zzC12Base(twin[i]), "twin-environments-write-the-same-files")
+			nd.Assert(a.content(files[i]) == b.content(twin[i]), "failed-write-is-reported-or-harmless")
+		}
+		nd.Reach("unreported")
+	} else {
+		nd.Reach("reported")
+	}
+	nd.Reach("end")
 }
 
 // VerifC12_Retry: update 1 brings up d1. Then d2 is added and update 2 runs with a write fault
